@@ -15,6 +15,8 @@ PROP = dict(
         "MM.C16.C16_partial_close_isolated",
         "MM.C16.C16_partial",
         "MM.C16.C16_partial_statement",
+        "MM.C16.C16_relay_frames_never_reach_exit",
+        "MM.C16.C16_unclaimed_frame_leaves_relay_untouched",
         "MM.C16.C16_refuted",
         "MM.C16.C16_refuted_close_hits_other",
     ],
@@ -23,7 +25,7 @@ PROP = dict(
          "DeleteByPeer) over few peers and few ids incl. 2^32, 2^63-1, 2^63, 2^64-1, long histories, deletes of absent entries; (b) the real "
          "agent (agent.New, injected handshake-less peers, Agent.processFrame): topologies with several upstream peers that dialed this agent "
          "(their allocators all start at 1) toward shared next hops, tcp/udp/icmp tunnels, frames from both legs, wrong peers, stale ids, "
-         "disconnects/reconnects, orderly teardown. The spec recomputes from the op history, keyed by (peer, stream id), where each frame must "
+         "disconnects/reconnects, orderly teardown; the agent is ALSO exit endpoint (real exit.Handler, loopback destination, real key exchange): exit streams and relayed streams with equal ids from different peers (`pair mode`), data under the tunnel's own key must reach its own destination socket. The spec recomputes from the op history, keyed by (peer, stream id), where each frame must "
          "go; non-trivial = a frame was forwarded or a table changed",
     nontrivial=lambda op, out: not op.startswith(("reset", "conn", "end")) and ("sent=[] " not in out or op.startswith(("t.", "close", "rst", "err", "disc"))),
     trusted_base=[
